@@ -77,7 +77,7 @@ def run(chk):
                        "signedRadix16 / nonAdjacentForm / SelectInto summarised by contracts R-16 / R-naf / T-sel discharged below from their SSA"]
     items = list(field_contracts(base, chk))
     l1 = L1m.L1(base, chk)
-    items += [("L1 lemmas", l1.lemmas), ("L1 internal contracts", lambda: L1m.internal_contracts(l1)), ("completeness", lambda: L1m.completeness(l1))]
+    items += [("L1 lemmas", l1.lemmas), ("L1 internal contracts", lambda: L1m.internal_contracts(l1)), ("completeness", lambda: L1m.completeness(l1)), ("selector primitives", lambda: L1m.selector_contracts(l1))]
     items.append(("R-16", lambda: L2m.r16_contract(base, chk)))
     items.append(("T-sel projLookupTable", lambda: L2m.tsel_ct_contract(base, chk, "projLookupTable")))
     items.append(("T-sel affineLookupTable", lambda: L2m.tsel_ct_contract(base, chk, "affineLookupTable")))
